@@ -528,11 +528,11 @@ fn space() -> &'static Space {
   })
 }
 
-const QUICK_SAMPLE_DIVISOR: u64 = 12;
-const QUICK_SEEDED: u64 = 20_000;
-const QUICK_SYSTEM: u64 = 600;
-const THOROUGH_SEEDED: u64 = 200_000;
-const THOROUGH_SYSTEM: u64 = 5_000;
+const QUICK_SAMPLE_DIVISOR: u64 = 3;
+const QUICK_SEEDED: u64 = 60_000;
+const QUICK_SYSTEM: u64 = 3_000;
+const THOROUGH_SEEDED: u64 = 1_000_000;
+const THOROUGH_SYSTEM: u64 = 50_000;
 
 fn layout(tier: Tier) -> (u64, u64, u64) {
   let sp = space();
@@ -1036,7 +1036,7 @@ impl Sim for C12 {
     parr(plan, "faults").iter().any(|f| edits_of(&catalogue(pstr(plan, "base")), pstr(f, "kind"), pu64(f, "index") as usize, pu64(f, "variant") as usize).is_none())
   }
   fn rule_text(&self) -> String {
-    "cases = (base model text, fault list): every single structural fault (delete / duplicate / empty / swap an element, delete / empty / swap attribute values, delete / swap text nodes, retarget every href to a missing element, to its own owner and to each element requiring the owner within 3 steps, retarget item definition typeRefs to their own definition and to their referrers) at every position of every .dmn file under examples/src plus the simulator's models - all of them in the thorough tier, every reference fault plus a seeded one-in-12 stratified sample of the rest in the quick tier - then seeded pairs and storage faults (truncate, lost write, bit/burst flips, dropped/duplicated/swapped 64-byte blocks, foreign block spliced in, invalid UTF-8), then seeded cases through the directory-load and HTTP paths; distinct = distinct faulted texts (hash); non-trivial = the fault changed the text".to_string()
+    "cases = (base model text, fault list): every single structural fault (delete / duplicate / empty / swap an element, delete / empty / swap attribute values, delete / swap text nodes, retarget every href to a missing element, to its own owner and to each element requiring the owner within 3 steps, retarget item definition typeRefs to their own definition and to their referrers) at every position of every .dmn file under examples/src plus the simulator's models - all of them in the thorough tier, every reference fault plus a seeded one-in-3 stratified sample of the rest in the quick tier - then seeded pairs and storage faults (truncate, lost write, bit/burst flips, dropped/duplicated/swapped 64-byte blocks, foreign block spliced in, invalid UTF-8), then seeded cases through the directory-load and HTTP paths; distinct = distinct faulted texts (hash); non-trivial = the fault changed the text".to_string()
   }
   fn assumptions(&self) -> Vec<String> {
     vec![
